@@ -447,6 +447,9 @@ impl<C: Config> Engine<C> {
             }
 
             // acquire read snapshot
+            #[cfg(feature = "verif")]
+            qbice_storage::verif::yield_point("pre:query_for:before_read_snapshot").await;
+
             let mut snapshot =
                 self.get_read_snapshot::<Q>(query.id.compact_hash_128()).await;
 
@@ -490,6 +493,9 @@ impl<C: Config> Engine<C> {
             // now the `query` state is held in computing state.
             // if `guard` is dropped without defusing, the state will
             // be restored to previous state (either computed or absent)
+            #[cfg(feature = "verif")]
+            qbice_storage::verif::yield_point("pre:query_for:before_write_guard").await;
+
             let Some((snapshot, guard)) =
                 snapshot.get_write_guard(slow_path, caller).await
             else {
